@@ -307,7 +307,7 @@ func (g *gstate) end(p *gprod) {
 		ci = 1
 	}
 	ep := p.epoch
-	stale := r.Chance(6)
+	stale := r.Chance(6) && p.epoch >= 1
 	if stale {
 		ep = p.epoch - 1
 	}
@@ -349,10 +349,14 @@ func (g *gstate) step() {
 		n := r.Range(1, 4)
 		g.emitProd(hx.Pick(r, []string{"o", "n"}), nil, -1, -1, -1, n, part, 0)
 		g.hwm[part] += n
-	case k < 52 && len(p.hist) > 0: // retry of one of the last (up to 7) accepted batches
+	case k < 52 && len(p.hist) > 0 && (!p.txn || p.inited): // retry of one of the last (up to 7) accepted batches
 		h := p.hist[len(p.hist)-1-r.Intn(min(len(p.hist), 7))]
 		hx.Emit("prod %s %d %d %d %d %d %d %d", h.c, p.k, h.epoch, h.seq, h.n, h.nb, h.p, h.tx)
 	case k < 56: // wrong sequence / stale or newer epoch
+		if p.txn && !p.inited {
+			g.goodProd(p, part)
+			return
+		}
 		w := g.win(p, part)
 		tx := int64(0)
 		if p.txn {
@@ -366,7 +370,9 @@ func (g *gstate) step() {
 				g.start(p)
 			}
 		case 1:
-			g.emitProd("o", p, p.k, p.epoch-1, w.next, 2, part, tx)
+			if p.epoch >= 1 {
+				g.emitProd("o", p, p.k, p.epoch-1, w.next, 2, part, tx)
+			}
 		case 2: // newer epoch starting at 0: accepted, kfake adopts the epoch
 			if !p.txn || (p.inited && p.parts[part]) {
 				nb := g.emitProd("o", p, p.k, p.epoch+1, 0, 2, part, tx)
@@ -413,7 +419,7 @@ func (g *gstate) step() {
 			p.epoch++
 		} else {
 			e := p.epoch
-			if r.Chance(30) {
+			if r.Chance(30) && e >= 1 {
 				e--
 			}
 			hx.Emit("initr %d %d", p.k, e)
